@@ -125,6 +125,8 @@ RULES += [
     {"_extra": [["lib.yaml", [{"name": "@imm", "pattern": "mov"}]]], "pattern": ["@imm", "add"]},
     {"_extra": [["lib.yaml", [{"name": "@imm", "pattern": "xor"}]]], "pattern": ["@imm", "xor"]},
     {"_extra": [["regs.yaml", [{"name": "@x", "pattern": "mov"}]]], "pattern": ["@x", "@y"]},   # @y undefined: must fail every time
+    # rule text with YAML scalars whose reading depends on the loader (unquoted hex / octal-looking / boolean-looking names)
+    {"_yaml": "pattern:\n  - mov: [0x28, '%rbx']\n  - add: [010, yes]\n"},
 ]
 
 PRE_RULES = PRE + '''
@@ -309,7 +311,8 @@ with tempfile.TemporaryDirectory(prefix="jasmverif_") as d:
             st = os.stat(a); open(a, "w").write(listings[0]); os.utime(a, (st.st_atime, st.st_mtime)); current = 0
         rule = dict(rules[k])
         extra = rule.pop("_extra", None)
-        p = os.path.join(d, "r%d.yaml" % k); open(p, "w").write(yaml.safe_dump(rule, sort_keys=False))
+        raw = rule.pop("_yaml", None)
+        p = os.path.join(d, "r%d.yaml" % k); open(p, "w").write(raw if raw is not None else yaml.safe_dump(rule, sort_keys=False))
         mpaths = None
         if extra:
             mpaths = []
